@@ -160,6 +160,10 @@ def run(pid, tier, seed, replay=None):
             rep.sample({"script": scripts[0].splitlines()[:25]})
         if verdicts:
             rep.sample({"verdict": {k: verdicts[0][k] for k in ("id", "why", "viols")}})
+        if pid == "C05" and not replay:
+            # the timer store itself: IvTimerHeap model, lock-step and scale runs
+            import check_c05heap
+            check_c05heap.run_heap(tier, seed, sc, rep)
         vac = [r for r in RULES.get(pid, []) if seen_rules[r] == 0]
         if vac and not replay and not rep.viol:
             raise vlib.MachineryError("vacuous run: rules never exercised: %s" % vac)
